@@ -13,7 +13,7 @@ OP_NAMES = {0: 'frame(declared shape)', 1: 'frame(one point too few)', 2: 'frame
             26: 'POINT:RATE=0', 27: 'POINT:RATE=50', 28: 'POINT:RATE=100', 29: 'ANALOG:RATE=0', 30: 'ANALOG:RATE=100', 31: 'ANALOG:RATE=200',
             32: 'parameter(new group)', 33: 'parameter(POINT, new)', 34: 'parameter(POINT, replace with other type)', 35: 'parameter(unnamed)', 36: 'parameter(untyped, new group)', 37: 'parameter(untyped, POINT)',
             38: 'lockGroup(POINT)', 39: 'lockGroup(unknown)', 40: 'point(name)', 41: 'point(existing name)', 42: 'analog(name)', 43: 'save+reload', 44: 'point(frames, two new points, last frame lacks the second)', 45: 'analog(frames, two new channels, last sub-frame lacks the second)', 46: 'ANALOG:RATE=300', 47: 'frame(first point renamed)', 48: 'frame(one point too few, last)', 49: 'frame(last point renamed, 0)', 50: 'point(frames, one frame too many)', 51: 'point(frames, name of the last label)', 52: 'analog(frames, one frame too many)', 53: 'analog(frames, name of the last label)', 54: 'point(frames, last frame carries a stray extra point)', 55: 'analog(frames, last frame carries a stray extra channel)'}
-START_NAMES = {0: 'fresh', 1: 'declared', 2: 'populated', 3: 'loaded', 4: 'loaded (fewer labels than points)', 5: 'loaded (empty ANALOG group)', 6: 'loaded (ANALOG:SCALE padded, ANALOG:UNITS unfilled)', 7: 'populated, two channels declared under the same name'}
+START_NAMES = {0: 'fresh', 1: 'declared', 2: 'populated', 3: 'loaded', 4: 'loaded (fewer labels than points)', 5: 'loaded (empty ANALOG group)', 6: 'loaded (ANALOG:SCALE padded, ANALOG:UNITS unfilled)', 7: 'populated, two channels declared under the same name', 8: 'loaded (ANALOG:SCALE padded by three entries, ANALOG:UNITS unfilled)', 9: 'loaded (more labels than points)'}
 
 PARTIAL_ANALOG_OPS = (29, 30, 31, 46)     # ANALOG:RATE set on an object whose ANALOG group has no parameter: partially declared group, outside the claim
 def hist_jobs(tier, seed, depth_q=2, depth_t=3, finish=1, dupdeclare=0, extra_starts=()):
@@ -31,10 +31,10 @@ def hist_jobs(tier, seed, depth_q=2, depth_t=3, finish=1, dupdeclare=0, extra_st
                 out.append({'entry': 'h_hist', 'harness': 'h_hist.cpp', 'cfg': {'start': start, 'depth': depth, 'finish': finish, 'dupdeclare': dupdeclare}, 'forced': [op], 'name': 'hist'})
     return out
 
-def start_file(concrete_seed=None, fewer=False, empty_analog=False, deviating_lists=False):
+def start_file(concrete_seed=None, fewer=False, empty_analog=False, deviating_lists=False, pad3=False, more=False):
     S = gen.Syms(concrete=concrete_seed is not None, seed=concrete_seed or 0)
     if empty_analog: c = gen.make_content(S, P=2, C=0, sub=0, F=2, analog='empty', fixed_plabels=['p0', 'p1'], symbolic_meta=False, units_per_point=True, first=10)
-    else: c = gen.make_content(S, P=2, C=1, sub=2, F=2, fixed_plabels=['p0'] if fewer else ['p0', 'p1'], labels='fewer' if fewer else 'equal', fixed_alabels=['a0'], symbolic_meta=False, units_per_point=True, first=10, analog_lists='deviating' if deviating_lists else 'equal')
+    else: c = gen.make_content(S, P=2, C=1, sub=2, F=2, fixed_plabels=['p0'] if fewer else ['p0', 'p1', 'zz'] if more else ['p0', 'p1'], labels='fewer' if fewer else 'more' if more else 'equal', fixed_alabels=['a0'], symbolic_meta=False, units_per_point=True, first=10, analog_lists='deviating3' if pad3 else 'deviating' if deviating_lists else 'equal')
     cells = c3dref.encode_with_data_start(c, c3dref.Layout())
     return S, cells
 
@@ -58,8 +58,8 @@ def explore(engine, job, prop, per_step, wall=250, maxsteps=40_000_000, final=No
     res = new_result()
     q0 = eng.sc.queries; t0 = eng.sc.time
     files = None; assume = None
-    if job['cfg']['start'] in (3, 4, 5, 6):
-        S, cells = start_file(fewer=job['cfg']['start'] == 4, empty_analog=job['cfg']['start'] == 5, deviating_lists=job['cfg']['start'] == 6); files = {'in.c3d': gen.to_engine_cells(cells)}; assume = S.cons
+    if job['cfg']['start'] in (3, 4, 5, 6, 8, 9):
+        S, cells = start_file(fewer=job['cfg']['start'] == 4, empty_analog=job['cfg']['start'] == 5, deviating_lists=job['cfg']['start'] == 6, pad3=job['cfg']['start'] == 8, more=job['cfg']['start'] == 9); files = {'in.c3d': gen.to_engine_cells(cells)}; assume = S.cons
     paths = api.run_fn(eng, job['entry'], cfg=job['cfg'], files=files, assume=assume, forced_choices=job.get('forced'), wall=wall, maxsteps=maxsteps)
     first = True
     for r in paths:
